@@ -3,6 +3,7 @@ import Mp.Deps
 import Mp.DepsExact
 import Mp.CueDeps
 import Mp.Tree
+import Mp.CueWalk
 /-! C15 — property theorems (proved in the imported modules; statements are checked there, axioms audited here). -/
 #print axioms Deps.closure_sound
 #print axioms Deps.closure_complete
@@ -27,3 +28,11 @@ import Mp.Tree
 #print axioms Mp.offered_iff
 #print axioms Mp.offered_exact
 #print axioms Mp.offered_coherent
+#print axioms Mp.firstKey_checked
+#print axioms Mp.dollar_heads_checked
+#print axioms Mp.rejected_wherever
+#print axioms Mp.top_at_head_checked
+#print axioms Mp.top_group_at_head_checked
+#print axioms Mp.unavailable_iff
+#print axioms Mp.below_root_keys_not_checked
+#print axioms Mp.only_first_key_checked
